@@ -324,7 +324,7 @@ def one_run(spec, device, fault, answer=None, line_fault=None):
                         # as many frame times as frames, each the time stored with its frame (every one of them can be loaded)
                         import h5py as _h5
 
-                        if getattr(result, "path", None) and os.path.exists(result.path):
+                        if not resumed and getattr(result, "path", None) and os.path.exists(result.path):  # (a resumed run is not a stopped run, see DESIGN 6b)
                             with _h5.File(result.path, "r") as f_:
                                 ft_ = [float(f_["data"][k_].attrs["time"]) for k_ in sorted(f_["data"].keys(), key=int)]
                             C["partial_solution_times_checks"] = C.get("partial_solution_times_checks", 0) + 1
